@@ -140,6 +140,11 @@ class PdShim:
             return False
         return pd.isnull(x)
 
+    def to_datetime(self, x, *a, **k):
+        if getattr(x, '_symdate', False):
+            return x
+        return pd.to_datetime(x, *a, **k)
+
     def Timestamp(self, x, *a, **k):
         if getattr(x, '_symdate', False):
             return x
